@@ -115,7 +115,14 @@ def run_case(job):
                                 oqupy.PtTebdParameters(dt=dt, order=2, epsrel=1e-12),
                                 start_time=start, start_step=(3 if m % 2 else 0),
                                 dynamics_sites=[0])
-            res = tebd.compute(m + (3 if m % 2 else 0), progress_type="silent")
+            s0 = 3 if m % 2 else 0
+            if m >= 2 and m % 3 != 1:
+                # the requested grid is reached in two calls; a call whose end step has been passed adds nothing
+                tebd.compute(s0 + m // 2, progress_type="silent")
+                tebd.compute(s0 + m, progress_type="silent")
+                res = tebd.compute(s0 + m - 1, progress_type="silent")
+            else:
+                res = tebd.compute(s0 + m, progress_type="silent")
             times, states = res["dynamics"][0].times, res["dynamics"][0].states
             if not np.allclose(res["time"], times):
                 out.append({"what": "tebd-time-axes-differ"})
